@@ -61,3 +61,26 @@ Theorem C09_refuted_pre_fix :
     cfg_ok cfg /\ c_incl cfg = false /\ run_model_pre_fix fm_append cfg prog <> run_spec fm_append cfg prog.
 Proof. exact C09_program_refuted. Qed.
 Print Assumptions C09_refuted_pre_fix.
+
+(* ---- IteratorOptions.IncludeDeletions = true (outside the property's text, which
+   speaks of live keys; kept here because the model covers the mode) ---------------
+   Every program answers exactly like the specification iterator over ALL entries of
+   the range (deletions included) whose SeekTo performs the naive forward walk of
+   naiveSeekTo ... *)
+From Moss Require Import IteratorIncl IteratorInclFacts.
+Theorem C09_incl_every_program_matches_the_exact_specification :
+  forall (fm : bytes -> value -> bytes -> value) (cfg : config) (prog : list call),
+    cfg_ok cfg -> c_incl cfg = true ->
+    run_model fm cfg prog = run_spec_incl_naive fm cfg prog.
+Proof. exact C09i_program_naive. Qed.
+Print Assumptions C09_incl_every_program_matches_the_exact_specification.
+
+(* ... and NOT like the natural one ("SeekTo(x) positions at the first entry >= x"):
+   standing on a live entry below x, SeekTo steps over deletion entries at or after x,
+   because Current() reports a nil key for them (observation O1 in DESIGN.md; confirmed
+   on the real code) *)
+Theorem C09_incl_natural_seek_refuted :
+  exists cfg prog, cfg_ok cfg /\ c_incl cfg = true /\
+    run_model fm_append cfg prog <> run_spec_incl fm_append cfg prog.
+Proof. exact C09i_program_refuted. Qed.
+Print Assumptions C09_incl_natural_seek_refuted.
